@@ -321,7 +321,9 @@ def check_for_geff(store: StoreLike, zarr_format: Literal[2, 3] | None = None) -
     """Check a StoreLike for an existing geff and return True if already present
 
     The store is only read, never created or modified, and the zarr format of an
-    existing hierarchy is detected rather than assumed.
+    existing hierarchy is detected rather than assumed. A zarr group that holds other
+    members but no geff (no geff metadata, no nodes or edges group) does not count as
+    an existing geff, whether it is given as a path or as a store object.
 
     Args:
         store (StoreLike): StoreLike to check for a geff
@@ -331,19 +333,22 @@ def check_for_geff(store: StoreLike, zarr_format: Literal[2, 3] | None = None) -
     Returns:
         bool: True if a geff already exists
     """
-    if isinstance(store, Path):
-        exists = store.exists()
-    elif isinstance(store, str):
-        exists = os.path.exists(store)
-    # If store is already open, check for geff key in metadata
-    else:
-        try:
-            # Read only and without a zarr_format, so that nothing is created and an
-            # existing group is found whichever zarr format it was written with
-            root = zarr.open_group(store, mode="r")
-        except (FileNotFoundError, zarr.errors.GroupNotFoundError):
-            # No zarr group in the store yet
-            return False
-        exists = "geff" in root.attrs
+    is_path = isinstance(store, str | Path)
+    if is_path and not os.path.exists(store):
+        return False
 
-    return exists
+    try:
+        # Read only and without a zarr_format, so that nothing is created and an
+        # existing group is found whichever zarr format it was written with
+        root = zarr.open_group(store, mode="r")
+    except (FileNotFoundError, zarr.errors.GroupNotFoundError):
+        # No zarr group: an open store holds nothing yet, but an existing path is
+        # occupied by something that is not a zarr group and must not be written into
+        return is_path
+
+    if "geff" in root.attrs:
+        return True
+    # A zarr group without geff metadata can take a geff next to its other members,
+    # as it can when it is passed as a store object. A path that still holds nodes
+    # or edges (e.g. the remains of an interrupted write) stays protected.
+    return is_path and (_path.NODES in root or _path.EDGES in root)
